@@ -1,0 +1,11 @@
+//go:build !verif
+
+// Package verifhook: stubs used when the `verif` build tag is off.
+package verifhook
+
+import "time"
+
+const Enabled = false
+
+func Ticker(name string, t *time.Ticker)     {}
+func Point(name string, args ...interface{}) {}
